@@ -26,7 +26,8 @@ them, every word a walk reads ranges over 0..CorruptMax, i.e. 0 / in range / out
   dynsym.sh_size.*, dynsym.sh_entsize.*   cq.symN inconsistent with the tables ("Assert": gelf_getsym fails; entsize 0: division)
   hash.sh_type.gnu / gnu.sh_type.hash / order swaps     SelectSection: kind and index disagree (deviation D1 of ElfHash.tla)
 Outside that space (no model counterpart; observed only): .dynsym entries, version sections, section-header links,
-ELF header fields, truncations, DWARF bytes, random flips.
+ELF header fields, truncations at many offsets (truncated.*), an ELF magic / identification / header followed by random
+bytes or zeros (garbage.*), DWARF bytes, random flips.
 """
 import struct
 
@@ -337,13 +338,27 @@ def corruptions(data, rng, thorough=False):
     add("ehdr.ei_class.0", "EI_CLASS=0", _put(e.data, 4, "<B", 0))
     add("ehdr.ei_data.msb", "EI_DATA=ELFDATA2MSB", _put(e.data, 5, "<B", 2))
     add("ehdr.ei_version.0", "EI_VERSION=0", _put(e.data, 6, "<B", 0))
-    for cut, vn in ((0, "empty"), (16, "ident"), (63, "ehdr-1"), (64, "ehdr"), (n // 2, "half"), (e.eh["e_shoff"], "no-shdrs"),
-                    (e.eh["e_shoff"] + 64 * 3, "3-shdrs"), (n - 1, "minus1")):
-        if cut < n:
-            out.append(("truncated." + vn, "file cut at %d" % cut, e.data[:cut]))
-    s = e.sec(".dynsym")
-    if s:
-        out.append(("truncated.in-dynsym", "file cut inside .dynsym", e.data[:s["offset"] + s["size"] // 2]))
+    cuts = [(0, "empty"), (4, "magic"), (16, "ident"), (63, "ehdr-1"), (64, "ehdr"), (120, "ehdr+1phdr"), (256, "256"), (512, "512"),
+            (n // 4, "quarter"), (n // 2, "half"), (e.eh["e_shoff"] - 1, "before-shdrs-1"), (e.eh["e_shoff"], "no-shdrs"),
+            (e.eh["e_shoff"] + 64, "1-shdr"), (e.eh["e_shoff"] + 64 * 3, "3-shdrs"), (n - 64, "last-shdr"), (n - 1, "minus1")]
+    for nm in (".dynsym", ".dynstr", ".hash", ".gnu.hash", ".gnu.version", ".gnu.version_d", ".dynamic", ".symtab", ".strtab", ".shstrtab", ".debug_info", ".debug_abbrev"):
+        s = e.sec(nm)
+        if s and s["size"]:
+            tag = nm.lstrip(".").replace(".", "_")
+            cuts += [(s["offset"], "at-" + tag), (s["offset"] + s["size"] // 2, "in-" + tag)]
+    for r in range(8 if thorough else 2):
+        cuts.append((rng.randrange(1, n), "random"))
+    for cut, vn in cuts:
+        if 0 <= cut < n:
+            out.append(("truncated." + vn, "file cut at %d of %d" % (cut, n), e.data[:cut]))
+    # an ELF identification followed by bytes that are not an ELF file
+    for r in range(6 if thorough else 2):
+        ln = rng.choice([8, 60, 64, 200, 1000, 5000])
+        out.append(("garbage.magic+random", "\\x7fELF + %d random bytes" % ln, b"\x7fELF" + bytes(rng.randrange(256) for _ in range(ln))))
+        out.append(("garbage.ident+random", "valid e_ident + %d random bytes" % ln, e.data[:16] + bytes(rng.randrange(256) for _ in range(ln))))
+        out.append(("garbage.ehdr+random", "valid ELF header + %d random bytes" % ln, e.data[:64] + bytes(rng.randrange(256) for _ in range(ln))))
+    out.append(("garbage.magic+zeros", "\\x7fELF + 4096 zero bytes", b"\x7fELF" + b"\0" * 4096))
+    out.append(("garbage.ehdr+zeros", "valid ELF header + zeros up to the file size", e.data[:64] + b"\0" * (n - 64)))
 
     # ---- .dynamic entries (d_tag, d_val)
     s = e.sec(".dynamic")
